@@ -188,3 +188,34 @@ def is_plain(feats):
 
 def trivial_value(v):
     return v in (None, 0, False, b"", "", [], {}, ()) or v == (b"", 0)
+
+
+def value_features(mod, t, v, out=None):
+    """Feature strings of a value (for known-class predicates and histograms)."""
+    out = out if out is not None else set()
+    rt = mod.resolve(t)
+    k = rt.kind
+    if k == "BITSTRING":
+        data, n = v
+        if n and not rt.named and not (data[(n - 1) // 8] >> (7 - (n - 1) % 8)) & 1:
+            fixed = rt.size and not rt.size.ext and len(rt.size.ranges) == 1 and rt.size.ranges[0][0] == rt.size.ranges[0][1]
+            out.add("bits.trailing0.fixed" if fixed else "bits.trailing0")
+    elif k == "REAL":
+        if v == v and v != 0 and abs(v) < 2.2250738585072014e-308:
+            out.add("real.subnormal")
+        if v != v:
+            out.add("real.nan")
+    elif k in ("SEQUENCE", "SET"):
+        for m in rt.members:
+            if m.name in v:
+                value_features(mod, m.type, v[m.name], out)
+    elif k == "CHOICE":
+        for m in rt.members:
+            if m.name == v[0]:
+                if m.ext:
+                    out.add("choice.ext-alt")
+                value_features(mod, m.type, v[1], out)
+    elif k in ("SEQOF", "SETOF"):
+        for x in v[:50]:
+            value_features(mod, rt.elem, x, out)
+    return out
